@@ -168,6 +168,10 @@ func genItems(rng *rand.Rand, v6 bool) []item {
 				}
 			}
 		}
+		if len(it.b) > 1500 { // larger than a link MTU: would be cut by the servers' 4096-byte reads, which is not what C14 is about
+			i--
+			continue
+		}
 		items = append(items, it)
 	}
 	return items
